@@ -29,6 +29,7 @@ import itertools
 import operator
 import os
 import re
+import struct
 import traceback
 import zlib
 
@@ -315,6 +316,76 @@ def _xadd_to_store(code):
     return bytes(out) if hit else None
 
 
+def _insns(code):
+    return [list(struct.unpack_from("<BBhi", code, i))
+            for i in range(0, len(code), 8)]
+
+
+def _pack(ins):
+    return b"".join(struct.pack("<BBhi", *i) for i in ins)
+
+
+def _drop_r0_restore(code):
+    """defect model for KF_R0: the same program without the `r0 = <saved
+    r0>` that save_registers emits between a map_lookup_elem call and the
+    first access through the returned pointer"""
+    ins = _insns(code)
+    hit = False
+    for i, (op, regs, off, imm) in enumerate(ins):
+        if op != 0x85 or imm != 1:
+            continue
+        for j in range(i + 1, min(i + 14, len(ins))):
+            o, r, _, _ = ins[j]
+            dst, src = r & 15, r >> 4
+            if o == 0x85:
+                break
+            if o == 0xbf and dst == 0 and src != 0:
+                ins[j][1] = src | src << 4        # rX = rX: a no-op
+                hit = True
+                break
+            cls = o & 7
+            if (cls == 1 and src == 0) or (cls in (2, 3) and dst == 0):
+                break                             # r0 used as a pointer
+    return _pack(ins) if hit else None
+
+
+def _park_r1_elsewhere(code):
+    """defect model for KF_DICT: `r0 = r1; call helper; r1 = r0` (the
+    context parked in the register the call overwrites) with the parking
+    register replaced by a callee-saved one the program does not use"""
+    ins = _insns(code)
+    used = set()
+    for op, regs, off, imm in ins:
+        used |= {regs & 15, regs >> 4}
+    free = [r for r in (6, 7, 8, 9) if r not in used]
+    if not free:
+        return None
+    f, hit = free[0], False
+    for i, (op, regs, off, imm) in enumerate(ins):
+        if op == 0xbf and regs == (0 | 1 << 4):           # r0 = r1
+            for j in range(i + 1, min(i + 12, len(ins))):
+                if ins[j][0] == 0x85:
+                    for k in range(j + 1, min(j + 6, len(ins))):
+                        if ins[k][0] == 0xbf and ins[k][1] == (1 | 0 << 4):
+                            ins[i][1] = f | 1 << 4
+                            ins[k][1] = 1 | f << 4
+                            hit = True
+                            break
+                    break
+    return _pack(ins) if hit else None
+
+
+WIDE_MSGS = ("invalid read from stack RN off=N size=N",
+             "invalid indirect access to stack RN off=N size=N",
+             "RN min value is outside of the allowed memory range",
+             "RN max value is outside of the allowed memory range",
+             "RN offset is outside of the packet")
+TEMP_MSGS = ("invalid write to stack RN off=N size=N",
+             "invalid stack off=N size=N",
+             "invalid indirect access to stack RN off=N size=N",
+             "invalid read from stack RN off=N size=N")
+
+
 def classify(family, shape, norm, code, trig):
     """-> known-finding id, only when the structural trigger, the verifier's
     message and (where one exists) the defect model all agree"""
@@ -323,25 +394,18 @@ def classify(family, shape, norm, code, trig):
         alt = _xadd_to_store(code)
         if alt is not None and load(alt) is None:
             return KF_XADD
-    if "hash-read-r0-owned" in trig and \
-            norm == "RN invalid mem access 'scalar'":
-        return KF_R0
-    if "dict-then-ctx" in trig and \
-            norm == "RN invalid mem access 'scalar'":
-        return KF_DICT
-    if "hash-set-narrow-edge" in trig and (
-            norm.startswith("invalid read from stack RN off=N size=N")
-            or norm.startswith("invalid access to map value, value_size=N "
-                               "off=N size=N")
-            or norm.startswith("invalid access to packet, off=N size=N")
-            or norm.startswith("invalid indirect access to stack RN off=N "
-                               "size=N")):
+    if norm == "RN invalid mem access 'scalar'":
+        if "hash-read" in trig:
+            alt = _drop_r0_restore(code)
+            if alt is not None and load(alt) is None:
+                return KF_R0
+        if "dict-call" in trig:
+            alt = _park_r1_elsewhere(code)
+            if alt is not None and load(alt) is None:
+                return KF_DICT
+    if "hash-set-narrow-edge" in trig and norm in WIDE_MSGS:
         return KF_WIDE
-    if "temp-below-512" in trig and (
-            norm.startswith("invalid write to stack RN off=N size=N")
-            or norm.startswith("invalid stack off=N size=N")
-            or norm.startswith("invalid indirect access to stack RN off=N "
-                               "size=N")):
+    if "temp-below-512" in trig and norm in TEMP_MSGS:
         return KF_TEMP
     return None
 
@@ -913,8 +977,25 @@ def CMP(op, a, b):
 KT, PR = ["kt"], ["pr"]
 
 
+# registers the program owns before the statement under test (r1 = context
+# is always owned; more than four owned caller-saved registers cannot be
+# parked around a helper call and are refused by the generator)
+REGCTX_QUICK = [[], [0], [2, 3]]
+REGCTX = [[], [0], [2], [0, 2, 3], [2, 3, 4], [6, 8], [0, 5, 6]]
+
+
 def regctx(regs):
     return {str(n): 7 + n for n in regs}
+
+
+def mentions(o, kinds):
+    """does the statement / operand tree use an operand of these kinds?"""
+    if not isinstance(o, list):
+        return False
+    if o and isinstance(o[0], str) and o[0] in kinds and len(o) > 1 \
+            and not isinstance(o[1], list):
+        return True
+    return any(mentions(x, kinds) for x in o)
 
 
 def reads_hash(o):
@@ -929,8 +1010,7 @@ def reads_hash(o):
 # ---- hash-map variables in every position
 def fam_hash(ctx):
     hfmts = ["B", "i", "Q"] if ctx.quick else ["B", "h", "I", "i", "Q", "q"]
-    ctxs = [[], [0], [0, 2, 3, 4, 5]] if ctx.quick else \
-        [[], [0], [2], [0, 2, 3, 4, 5], [6, 8]]
+    ctxs = REGCTX_QUICK if ctx.quick else REGCTX
     tails = [[], [["set", L(3), H(0)]]]
     if not ctx.quick:
         tails.append([["set", ["ea", "B", 1], C(1)],
@@ -939,7 +1019,9 @@ def fam_hash(ctx):
     layouts = [dict(loc=["B", "H", "I", "Q"], av=["I", "H", "B"],
                     pv=[[0, "I"], [24, "Q"], [30, "H"]]),
                dict(loc=["Q", "I", "H", "B"], av=["Q", "I"],
-                    pv=[[0, "I"], [8, "Q"], [16, "H"]])]
+                    pv=[[0, "I"], [8, "Q"], [16, "H"]]),
+               # no packet pointer, no array map: more free registers
+               dict(loc=["H", "B", "I", "Q"])]
     h, g = H(0), H(1)
     out = []
     for lay_no, lay in enumerate(layouts):
@@ -969,7 +1051,7 @@ def fam_hash(ctx):
                 stmts.append(["set", h, R(0)])
                 for i in range(4):
                     stmts.append(["set", h, L(i)])
-                for i in range(len(lay["av"])):
+                for i in range(len(lay.get("av", ()))):
                     stmts.append(["set", h, A(i)])
                 for i in range(3):
                     stmts.append(["set", h, P(i)])
@@ -1000,8 +1082,12 @@ def fam_hash(ctx):
                     for tail in tails:
                         if lay_no == 1 and tail:
                             continue
+                        if lay_no == 2 and (mentions(st, ("a", "p", "ea"))
+                                            or mentions(tail, ("ea",))):
+                            continue
                         out.append(dict(
-                            xdp=True, min=32, hv=[hf, "Q"], regs=regctx(regs),
+                            xdp=True, min=32 if "pv" in lay else None,
+                            hv=[hf, "Q"], regs=regctx(regs),
                             body=[st] + tail, **lay))
     return out
 
@@ -1032,8 +1118,8 @@ def hash_triggers(spec):
                 rd = reads_hash(src) or (k != "set" and d[0] == "h")
                 if rd or d[0] == "h":
                     temp_need = True
-                if rd and (r0_owned or in_look):
-                    t.add("hash-read-r0-owned")
+                if rd:
+                    t.add("hash-read")
                 if k == "set" and d[0] == "h" and src[0] in ("l", "a", "p"):
                     if src[0] == "l" and pos and pos[src[1]][1] < 8 \
                             and pos[src[1]][0] + 8 > 0:
@@ -1061,8 +1147,7 @@ def hash_triggers(spec):
             elif k == "if":
                 if reads_hash(s[1]):
                     temp_need = True
-                    if r0_owned or in_look:
-                        t.add("hash-read-r0-owned")
+                    t.add("hash-read")
                 walk(s[2], r0_owned, in_look)
                 if s[3] is not None:
                     walk(s[3], r0_owned, in_look)
@@ -1082,8 +1167,7 @@ def fam_dict(ctx):
     dicts = [[["I"], ["q"]], [["I", "B"], ["q", "I", "B"]]]
     if not ctx.quick:
         dicts += [[["Q"], ["B"]], [["B", "B", "H", "I"], ["I", "I"]]]
-    ctxs = [[], [0], [0, 2, 3, 4, 5]] if ctx.quick else \
-        [[], [0], [2], [0, 2, 3, 4, 5], [6, 8]]
+    ctxs = REGCTX_QUICK if ctx.quick else REGCTX
     out = []
     for dd in dicts:
         for dorder in ("last", "first"):
@@ -1142,43 +1226,31 @@ def fam_dict(ctx):
 
 
 def dict_triggers(spec):
-    """a Dict helper call made while r0 is free (save_registers then parks
-    r1 in r0, the call overwrites it) followed by a use of the context r1"""
+    """a Dict helper call (save_registers parks r1 in r0 when r0 is free,
+    the call overwrites it)"""
     t = hash_triggers(spec)
-    regs = {int(k) for k in spec.get("regs", {})}
-    state = dict(r0=0 in regs, broken=False)
-
-    def uses_ctx(s):
-        return isinstance(s, list) and (s[:1] == ["psz"] or
-                                        any(uses_ctx(x) for x in s))
-
-    def walk(stmts):
-        for s in stmts:
-            k = s[0]
-            if state["broken"] and uses_ctx(s):
-                t.add("dict-then-ctx")
-            if k in ("upd", "look"):
-                if not state["r0"]:
-                    state["broken"] = True
-                state["r0"] = True
-            if k == "set" and s[1] == ["r", 0]:
-                state["r0"] = True
-            if k == "if":
-                walk(s[2])
-                if s[3] is not None:
-                    walk(s[3])
-            if k == "look":
-                walk(s[1])
-                if s[2] is not None:
-                    walk(s[2])
-    walk(spec.get("body", ()))
+    if any(s[0] in ("upd", "look") for s in _flat(spec.get("body", ()))):
+        t.add("dict-call")
     return t
+
+
+def _flat(stmts):
+    for s in stmts:
+        yield s
+        if s[0] == "if":
+            yield from _flat(s[2])
+            yield from _flat(s[3] or ())
+        elif s[0] == "look":
+            yield from _flat(s[1])
+            yield from _flat(s[2] or ())
+        elif s[0] == "psz":
+            yield from _flat(s[3])
+            yield from _flat(s[4] or ())
 
 
 # ---- ktime / prandom
 def fam_time(ctx):
-    ctxs = [[], [0], [0, 2, 3, 4, 5]] if ctx.quick else \
-        [[], [0], [2], [0, 2, 3, 4, 5], [6, 8]]
+    ctxs = REGCTX_QUICK if ctx.quick else REGCTX
     out = []
     for regs in ctxs:
         rr = R(regs[-1]) if regs else R(2)
